@@ -706,6 +706,19 @@ func (o *baseObject) _defineOwnProperty(name unistring.String, existingValue Val
 		return descr.Value, true
 	}
 
+	if existing.accessor {
+		if descr.Value != nil || descr.Writable != FLAG_NOT_SET {
+			// accessor -> data: [[Get]], [[Set]] are dropped, [[Writable]] defaults to false
+			existing.getterFunc = nil
+			existing.setterFunc = nil
+			existing.writable = false
+		}
+	} else if descr.Getter != nil || descr.Setter != nil {
+		// data -> accessor: [[Value]] is dropped, [[Writable]] no longer applies
+		existing.value = nil
+		existing.writable = false
+	}
+
 	if descr.Writable != FLAG_NOT_SET {
 		existing.writable = descr.Writable.Bool()
 	}
